@@ -247,6 +247,9 @@ func genStreamScenario(r *rng, sid string, maxPIDs, maxUnits int) streamScenario
 			p.PCR = true
 		}
 		p.Prio = r.intn(10) == 0
+		if !p.PUSI && gu.spec.T == "pes" && c.off >= gu.spec.HL && n >= 9 && r.intn(4) == 0 {
+			p.SL = true // the chunk begins with a start code (00 00 01 ..), as video elementary streams do all the time
+		}
 		sc.Pkts = append(sc.Pkts, p)
 		ps.cc = (ps.cc + 1) % 16
 		c.off += n
@@ -279,5 +282,48 @@ func genStreams(seed uint64, n, max int, emit func(interface{})) {
 	for i := 0; i < n; i++ {
 		maxPIDs := r.rangeInt(2, 8)
 		emit(genStreamScenario(r, fmt.Sprintf("dr-%d-%d", seed, i), maxPIDs, max))
+	}
+}
+
+// genPairs: random streams with random multi-fault patterns (C06): duplicates of first / middle / last packets,
+// of single-packet units, loss bursts of 1..15 packets of one PID
+func genPairs(seed uint64, n, max int, emit func(interface{})) {
+	r := newRng(seed ^ 0x5151)
+	for i := 0; i < n; i++ {
+		sc := genStreamScenario(r, fmt.Sprintf("pr-%d-%d", seed, i), r.rangeInt(2, 6), max)
+		sc.Kind = "pair"
+		mode := r.intn(3) // 0 dups only, 1 drops only, 2 both
+		var out []pktSpec
+		burstPID, burstLeft := -1, 0
+		for _, p := range sc.Pkts {
+			if p.K != "" {
+				out = append(out, p)
+				continue
+			}
+			if burstLeft > 0 && p.PID == burstPID {
+				p.F = "drop"
+				burstLeft--
+				out = append(out, p)
+				continue
+			}
+			x := r.intn(100)
+			switch {
+			case mode != 1 && x < 6:
+				out = append(out, p)
+				d := p
+				d.F = "dup"
+				out = append(out, d)
+			case mode != 0 && x >= 6 && x < 10:
+				p.F = "drop"
+				out = append(out, p)
+				if r.intn(3) == 0 {
+					burstPID, burstLeft = p.PID, r.rangeInt(1, 14)
+				}
+			default:
+				out = append(out, p)
+			}
+		}
+		sc.Pkts = out
+		emit(sc)
 	}
 }
